@@ -151,6 +151,12 @@ def drive(chk, which, label):
 def replay_through(chk, via, rnd, quick):
     """B1/B2 through the form: random units whose statement is first prettified / turned into a TransformationScheme, validated by the operator spec"""
     us = variants.mixed_units(rnd, 120 if quick else 1500)
+    # only units the engine gets right as they are written are judged through the form (other failures belong to C01-C08)
+    from harness import report
+    side = report.Check(chk.pid, chk.tier, chk.seed, 'model_checking')
+    bu, _, bv = b1.validate(side, us, lambda u: '', pack=20)
+    good = {u['id'] for u, v in zip(bu, bv) if v['ok']}
+    us = [dict(u) for u in us if u['id'] in good]
     for u in us:
         u['via'] = via
         u['nopack'] = True
